@@ -11,6 +11,14 @@
 // arguments so that the alignment of two parameters (raw / lower) can be checked at every call
 // site.  The check turns this JSON into lean/KafVerif/Gen/C35Slices.lean.
 //
+// It also lists every package-level `var` of the package (all non-test files next to the given
+// file) with its type class and the sites inside function bodies (init() excluded) that write it
+// (assignment to it / an element / a field, ++, delete, clear, copy-into, sort, passing it to a
+// package function that writes or aliases the parameter), alias it (&v, x := v, return v) or merely
+// read it, and whether the enclosing function takes a lock (calls .Lock() / .RLock()).  Parse runs
+// on one goroutine per client connection, so a written, lock-less package variable is shared
+// mutable state (table `pkg_vars`, obligation KafVerif.C35.no_package_level_mutable_state).
+//
 // Usage: go run main.go -f <path to parser.go>     (standard library only)
 package main
 
@@ -23,6 +31,7 @@ import (
 	"go/printer"
 	"go/token"
 	"os"
+	"path/filepath"
 	"sort"
 	"strings"
 )
@@ -452,6 +461,388 @@ func (a *analysis) run(fd *ast.FuncDecl, emit bool) *fnState {
 	return s
 }
 
+// ---------------------------------------------------------------- package-level variables
+
+type varRow struct {
+	Name      string   `json:"name"`
+	File      string   `json:"file"`
+	Line      int      `json:"line"`
+	Kind      string   `json:"kind"` // scalar map slice array pointer regexp sync func other
+	Writes    int      `json:"writes"`
+	Aliases   int      `json:"aliases"`
+	Reads     int      `json:"reads"`
+	Unguarded int      `json:"unguarded"` // access sites in functions that take no lock
+	Sites     []string `json:"sites"`     // the write / alias sites, for the report
+}
+
+func typeClass(t ast.Expr) string {
+	switch x := t.(type) {
+	case *ast.ParenExpr:
+		return typeClass(x.X)
+	case *ast.MapType:
+		return "map"
+	case *ast.ArrayType:
+		if x.Len == nil {
+			return "slice"
+		}
+		return "array"
+	case *ast.ChanType:
+		return "sync"
+	case *ast.FuncType:
+		return "func"
+	case *ast.StarExpr:
+		if sel, ok := x.X.(*ast.SelectorExpr); ok {
+			if id, ok := sel.X.(*ast.Ident); ok && id.Name == "regexp" && sel.Sel.Name == "Regexp" {
+				return "regexp"
+			}
+		}
+		return "pointer"
+	case *ast.Ident:
+		switch x.Name {
+		case "string", "bool", "byte", "rune", "int", "int8", "int16", "int32", "int64", "uint", "uint8", "uint16",
+			"uint32", "uint64", "uintptr", "float32", "float64", "error":
+			return "scalar"
+		}
+	case *ast.SelectorExpr:
+		if id, ok := x.X.(*ast.Ident); ok && (id.Name == "sync" || id.Name == "atomic") {
+			return "sync"
+		}
+	}
+	return "other"
+}
+
+func valueClass(v ast.Expr) string {
+	switch x := v.(type) {
+	case *ast.ParenExpr:
+		return valueClass(x.X)
+	case *ast.BasicLit:
+		return "scalar"
+	case *ast.FuncLit:
+		return "func"
+	case *ast.CompositeLit:
+		if x.Type != nil {
+			return typeClass(x.Type)
+		}
+	case *ast.UnaryExpr:
+		if x.Op == token.AND {
+			return "pointer"
+		}
+		return "scalar"
+	case *ast.BinaryExpr:
+		return "scalar"
+	case *ast.CallExpr:
+		pkg, name := calleeName(x)
+		if pkg == "" && (name == "make" || name == "new") && len(x.Args) > 0 {
+			if name == "new" {
+				return "pointer"
+			}
+			return typeClass(x.Args[0])
+		}
+		if pkg == "regexp" && strings.Contains(name, "Compile") {
+			return "regexp"
+		}
+		if _, ok := x.Fun.(*ast.ArrayType); ok {
+			return "slice"
+		}
+		if _, ok := x.Fun.(*ast.MapType); ok {
+			return "map"
+		}
+	}
+	return "other"
+}
+
+var mutatingCallees = map[string]bool{"sort.Strings": true, "sort.Ints": true, "sort.Float64s": true, "sort.Slice": true,
+	"sort.SliceStable": true, "sort.Sort": true, "sort.Stable": true, "slices.Sort": true, "slices.SortFunc": true,
+	"slices.SortStableFunc": true, "slices.Reverse": true, "rand.Shuffle": true, "maps.Copy": true, "maps.DeleteFunc": true}
+
+type role int
+
+const (
+	rNone role = iota
+	rRead
+	rWrite
+	rAlias
+)
+
+// pvAnalysis classifies every reference to a tracked variable (a package-level var, or - for the
+// callee summaries - a parameter of a package function).
+type pvAnalysis struct {
+	fset         *token.FileSet
+	funcs        map[string]*ast.FuncDecl // package functions (no receiver) by name
+	paramWritten map[string]map[int]bool
+}
+
+func contains(list []ast.Expr, e ast.Expr) int {
+	for i, x := range list {
+		if x == e {
+			return i
+		}
+	}
+	return -1
+}
+
+// classify the identifier at the top of the stack (stack[len-1]); aggregate = the variable is a
+// map / slice / pointer / other (sharing its value shares the underlying storage).
+func (p *pvAnalysis) classify(stack []ast.Node, aggregate bool) role {
+	i := len(stack) - 1
+	var top ast.Expr = stack[i].(*ast.Ident)
+	elem := false
+	for i > 0 {
+		switch par := stack[i-1].(type) {
+		case *ast.ParenExpr:
+			top = par
+		case *ast.IndexExpr:
+			if par.X != top {
+				return rRead // used as an index value
+			}
+			elem, top = true, par
+		case *ast.SelectorExpr:
+			if par.X != top {
+				return rNone
+			}
+			elem, top = true, par
+		case *ast.StarExpr:
+			elem, top = true, par
+		case *ast.SliceExpr:
+			if par.X != top {
+				return rRead
+			}
+			top = par
+		default:
+			goto done
+		}
+		i--
+	}
+done:
+	if i == 0 {
+		return rRead
+	}
+	switch par := stack[i-1].(type) {
+	case *ast.AssignStmt:
+		if contains(par.Lhs, top) >= 0 {
+			if par.Tok == token.DEFINE && !elem {
+				return rNone
+			}
+			return rWrite
+		}
+		if aggregate && !elem {
+			return rAlias
+		}
+	case *ast.IncDecStmt:
+		return rWrite
+	case *ast.UnaryExpr:
+		if par.Op == token.AND {
+			return rAlias
+		}
+	case *ast.RangeStmt:
+		if (par.Key == top || par.Value == top) && par.Tok == token.ASSIGN {
+			return rWrite
+		}
+	case *ast.ValueSpec, *ast.ReturnStmt, *ast.CompositeLit, *ast.KeyValueExpr, *ast.SendStmt:
+		if aggregate && !elem {
+			return rAlias
+		}
+	case *ast.CallExpr:
+		k := contains(par.Args, top)
+		if k < 0 {
+			return rRead // method call on the variable, or the callee itself
+		}
+		pkg, name := calleeName(par)
+		if pkg == "" {
+			switch name {
+			case "delete", "clear":
+				if k == 0 {
+					return rWrite
+				}
+			case "copy":
+				if k == 0 {
+					return rWrite
+				}
+			case "len", "cap", "append", "string", "print", "println", "min", "max":
+				return rRead
+			}
+			if p.funcs[name] != nil && aggregate && !elem && p.paramWritten[name][k] {
+				return rWrite
+			}
+			return rRead
+		}
+		if mutatingCallees[pkg+"."+name] && k == 0 && aggregate {
+			return rWrite
+		}
+	}
+	return rRead
+}
+
+func takesLock(fd *ast.FuncDecl) bool {
+	found := false
+	ast.Inspect(fd.Body, func(n ast.Node) bool {
+		if c, ok := n.(*ast.CallExpr); ok {
+			if sel, ok := c.Fun.(*ast.SelectorExpr); ok && (sel.Sel.Name == "Lock" || sel.Sel.Name == "RLock") {
+				found = true
+			}
+		}
+		return !found
+	})
+	return found
+}
+
+// walk visits every identifier of a function body with its ancestor stack (selector field names skipped).
+func walkIdents(body ast.Node, f func(stack []ast.Node)) {
+	var stack []ast.Node
+	ast.Inspect(body, func(n ast.Node) bool {
+		if n == nil {
+			stack = stack[:len(stack)-1]
+			return true
+		}
+		stack = append(stack, n)
+		if id, ok := n.(*ast.Ident); ok && len(stack) >= 2 {
+			if sel, ok := stack[len(stack)-2].(*ast.SelectorExpr); ok && sel.Sel == id {
+				return true
+			}
+			f(stack)
+		}
+		return true
+	})
+}
+
+func packageVars(fset *token.FileSet, mainFile string) ([]varRow, error) {
+	dir := filepath.Dir(mainFile)
+	ents, err := os.ReadDir(dir)
+	if err != nil {
+		return nil, err
+	}
+	var files []*ast.File
+	var names []string
+	for _, e := range ents {
+		n := e.Name()
+		if e.IsDir() || !strings.HasSuffix(n, ".go") || strings.HasSuffix(n, "_test.go") {
+			continue
+		}
+		f, err := parser.ParseFile(fset, filepath.Join(dir, n), nil, 0)
+		if err != nil {
+			return nil, err
+		}
+		files = append(files, f)
+		names = append(names, n)
+	}
+	p := &pvAnalysis{fset: fset, funcs: map[string]*ast.FuncDecl{}, paramWritten: map[string]map[int]bool{}}
+	type pv struct {
+		row  *varRow
+		spec *ast.ValueSpec
+	}
+	byName := map[string]*pv{}
+	var order []*pv
+	for fi, f := range files {
+		for _, d := range f.Decls {
+			switch x := d.(type) {
+			case *ast.FuncDecl:
+				if x.Recv == nil && x.Body != nil {
+					p.funcs[x.Name.Name] = x
+				}
+			case *ast.GenDecl:
+				if x.Tok != token.VAR {
+					continue
+				}
+				for _, sp := range x.Specs {
+					vs := sp.(*ast.ValueSpec)
+					for i, nm := range vs.Names {
+						if nm.Name == "_" {
+							continue
+						}
+						kind := "other"
+						if vs.Type != nil {
+							kind = typeClass(vs.Type)
+						} else if i < len(vs.Values) {
+							kind = valueClass(vs.Values[i])
+						}
+						v := &pv{row: &varRow{Name: nm.Name, File: names[fi], Line: fset.Position(nm.Pos()).Line, Kind: kind}, spec: vs}
+						byName[nm.Name] = v
+						order = append(order, v)
+					}
+				}
+			}
+		}
+	}
+	aggregateKind := func(k string) bool { return k == "map" || k == "slice" || k == "pointer" || k == "other" }
+	// callee summaries: which parameters does a package function write or alias?  (fixpoint)
+	for pass := 0; pass < 5; pass++ {
+		for name, fd := range p.funcs {
+			pos := map[*ast.Object]int{}
+			k := 0
+			for _, fld := range fd.Type.Params.List {
+				for _, nm := range fld.Names {
+					if nm.Obj != nil {
+						c := typeClass(fld.Type)
+						if aggregateKind(c) {
+							pos[nm.Obj] = k
+						}
+					}
+					k++
+				}
+			}
+			if len(pos) == 0 {
+				continue
+			}
+			walkIdents(fd.Body, func(stack []ast.Node) {
+				id := stack[len(stack)-1].(*ast.Ident)
+				k, ok := pos[id.Obj]
+				if !ok || id.Obj == nil {
+					return
+				}
+				if r := p.classify(stack, true); r == rWrite || r == rAlias {
+					if p.paramWritten[name] == nil {
+						p.paramWritten[name] = map[int]bool{}
+					}
+					p.paramWritten[name][k] = true
+				}
+			})
+		}
+	}
+	for _, f := range files {
+		for _, d := range f.Decls {
+			fd, ok := d.(*ast.FuncDecl)
+			if !ok || fd.Body == nil || (fd.Recv == nil && fd.Name.Name == "init") {
+				continue
+			}
+			locked := takesLock(fd)
+			walkIdents(fd.Body, func(stack []ast.Node) {
+				id := stack[len(stack)-1].(*ast.Ident)
+				v := byName[id.Name]
+				if v == nil {
+					return
+				}
+				if id.Obj != nil { // resolved inside this file: must be the package-level declaration itself
+					if vs, ok := id.Obj.Decl.(*ast.ValueSpec); !ok || vs != v.spec {
+						return
+					}
+				}
+				r := p.classify(stack, aggregateKind(v.row.Kind))
+				site := fmt.Sprintf("%s:%d", fd.Name.Name, fset.Position(id.Pos()).Line)
+				switch r {
+				case rNone:
+					return
+				case rRead:
+					v.row.Reads++
+				case rWrite:
+					v.row.Writes++
+					v.row.Sites = append(v.row.Sites, site+" write")
+				case rAlias:
+					v.row.Aliases++
+					v.row.Sites = append(v.row.Sites, site+" alias")
+				}
+				if !locked {
+					v.row.Unguarded++
+				}
+			})
+		}
+	}
+	var out []varRow
+	for _, v := range order {
+		out = append(out, *v.row)
+	}
+	return out, nil
+}
+
 func main() {
 	if len(os.Args) != 3 || os.Args[1] != "-f" {
 		fmt.Fprintln(os.Stderr, "usage: extract -f <parser.go>")
@@ -502,7 +893,16 @@ func main() {
 		}
 		fns = append(fns, fi)
 	}
-	out := map[string]interface{}{"funcs": fns, "slices": a.slices, "calls": a.calls, "lowerings": a.lowers, "index_result_param": a.retIdx}
+	vars, err := packageVars(token.NewFileSet(), os.Args[2])
+	if err != nil {
+		fmt.Fprintln(os.Stderr, err)
+		os.Exit(1)
+	}
+	if vars == nil {
+		vars = []varRow{}
+	}
+	out := map[string]interface{}{"funcs": fns, "slices": a.slices, "calls": a.calls, "lowerings": a.lowers, "index_result_param": a.retIdx,
+		"pkg_vars": vars}
 	enc := json.NewEncoder(os.Stdout)
 	enc.SetIndent("", " ")
 	_ = enc.Encode(out)
